@@ -85,9 +85,15 @@ func vProgramFrom(shape int, steps int, segSize int, withReopen bool) {
 			n := sizes[vChoice(len(sizes))]
 			b := vBytes("payload", n)
 			err := l.Append(b)
-			if err == ErrExceedsSegmentSize {
+			if n > segSize-24 {
 				vReach("exceeds")
+			}
+			if err == ErrExceedsSegmentSize {
 				vAssert(n > segSize-24 && s.last() == l.LastIndex(), "append-exceeds-only-when-too-big-for-an-empty-segment")
+				// ... but the same entry IS accepted when the last segment is not empty (a larger segment is made for
+				// it): whether an entry can be stored depends on the log's state, so a follower whose log was just reset
+				// cannot store what its leader stored (recorded known finding, DESIGN.md §6)
+				vAssert(false, "append-acceptance-does-not-depend-on-the-last-segment-being-empty")
 			} else {
 				vAssert(err == nil, "append-ok")
 				s.ents = append(s.ents, b)
